@@ -2,7 +2,8 @@
 (***************************************************************************)
 (* C15 - tenant isolation.  The specification IS the policy:               *)
 (*   CanSee(actor, r)     own project, public scope, or (workflows only)   *)
-(*                        an ACCEPTED membership; admins see everything    *)
+(*                        an ACCEPTED membership HELD BY THE ACTOR'S OWN   *)
+(*                        PROJECT; admins see everything                   *)
 (*   CanChange(actor, r)  owner or admin                                   *)
 (* One behaviour = one resource of some type created by its owner          *)
 (* (optionally shared with the actor's project through a membership in     *)
@@ -21,41 +22,45 @@ Projects == {"A", "B"}
 Scopes   == {"private", "public"}
 Members  == {"none", "pending", "accepted", "rejected"}
 
-VARIABLES type, owner, scope, member, actor, admin, op, phase, exists, changed, outcome
-vars == <<type, owner, scope, member, actor, admin, op, phase, exists, changed, outcome>>
+VARIABLES type, owner, scope, member, mholder, actor, admin, op, phase, exists, changed, outcome
+vars == <<type, owner, scope, member, mholder, actor, admin, op, phase, exists, changed, outcome>>
+\* mholder: which project holds the membership - "actor" (the acting project), "third" (some other project), "none"
 
-CanSee(a, ad, o, s, t, m) == ad \/ a = o \/ s = "public" \/ (t \in Shareable /\ m = "accepted")
+CanSee(a, ad, o, s, t, m, mh) == ad \/ a = o \/ s = "public" \/ (t \in Shareable /\ m = "accepted" /\ mh = "actor")
 CanChange(a, ad, o)       == ad \/ a = o
 
 Init == /\ type \in Types /\ owner \in Projects /\ scope \in Scopes
         /\ member \in Members /\ (type \notin Shareable => member = "none")
+        /\ mholder \in {"none", "actor", "third"} /\ (member = "none" <=> mholder = "none")
         /\ actor \in Projects /\ admin \in BOOLEAN /\ op \in Ops
         /\ (member # "none" => actor # owner)
         /\ phase = "created" /\ exists = TRUE /\ changed = FALSE /\ outcome = "none"
 
+\* an admin MAY reach the private rows of other projects (the property does not demand it; at db-api level some
+\* lookups are insecure for admins and some are not): for that case either outcome is a behaviour
+AdminOnly == admin /\ ~CanSee(actor, FALSE, owner, scope, type, member, mholder)
 Read ==   /\ phase = "created" /\ op \in {"get", "get_by_name", "list"}
-          /\ outcome' = IF CanSee(actor, admin, owner, scope, type, member) THEN "found" ELSE "notfound"
-          /\ phase' = "done" /\ UNCHANGED <<type, owner, scope, member, actor, admin, op, exists, changed>>
+          /\ outcome' \in (IF AdminOnly THEN {"found", "notfound"}
+                           ELSE IF CanSee(actor, admin, owner, scope, type, member, mholder) THEN {"found"} ELSE {"notfound"})
+          /\ phase' = "done" /\ UNCHANGED <<type, owner, scope, member, mholder, actor, admin, op, exists, changed>>
 Update == /\ phase = "created" /\ op = "update"
-          /\ IF CanChange(actor, admin, owner)
-             THEN changed' = TRUE /\ outcome' = "changed"
-             ELSE changed' = FALSE /\ outcome' \in {"notfound", "notallowed"}
-          /\ phase' = "done" /\ UNCHANGED <<type, owner, scope, member, actor, admin, op, exists>>
+          /\ \/ CanChange(actor, admin, owner) /\ changed' = TRUE /\ outcome' = "changed"
+             \/ (~CanChange(actor, admin, owner) \/ AdminOnly) /\ changed' = FALSE /\ outcome' \in {"notfound", "notallowed"}
+          /\ phase' = "done" /\ UNCHANGED <<type, owner, scope, member, mholder, actor, admin, op, exists>>
 Delete == /\ phase = "created" /\ op = "delete"
-          /\ IF CanChange(actor, admin, owner)
-             THEN exists' = FALSE /\ outcome' = "deleted"
-             ELSE exists' = TRUE /\ outcome' \in {"notfound", "notallowed"}
-          /\ phase' = "done" /\ UNCHANGED <<type, owner, scope, member, actor, admin, op, changed>>
+          /\ \/ CanChange(actor, admin, owner) /\ exists' = FALSE /\ outcome' = "deleted"
+             \/ (~CanChange(actor, admin, owner) \/ AdminOnly) /\ exists' = TRUE /\ outcome' \in {"notfound", "notallowed"}
+          /\ phase' = "done" /\ UNCHANGED <<type, owner, scope, member, mholder, actor, admin, op, changed>>
 \* creating a resource while naming another project in the values: the row belongs to the caller
 CreateAsOther == /\ phase = "created" /\ op = "create_as_other"
                  /\ outcome' = "owned_by_caller"
-                 /\ phase' = "done" /\ UNCHANGED <<type, owner, scope, member, actor, admin, op, exists, changed>>
+                 /\ phase' = "done" /\ UNCHANGED <<type, owner, scope, member, mholder, actor, admin, op, exists, changed>>
 Next == Read \/ Update \/ Delete \/ CreateAsOther
 Spec == Init /\ [][Next]_vars /\ WF_vars(Next)
 
-NoForeignRead  == (outcome = "found") => CanSee(actor, admin, owner, scope, type, member)
+NoForeignRead  == (outcome = "found") => CanSee(actor, admin, owner, scope, type, member, mholder)
 NoForeignWrite == (changed \/ ~exists) => CanChange(actor, admin, owner)
-PrivateInvisible == (phase = "done" /\ ~admin /\ actor # owner /\ scope = "private" /\ member # "accepted"
+PrivateInvisible == (phase = "done" /\ ~admin /\ actor # owner /\ scope = "private" /\ (member # "accepted" \/ mholder # "actor")
                      /\ op \in {"get", "get_by_name", "list"}) => outcome = "notfound"
 Decided == <>(phase = "done")
 =============================================================================
